@@ -219,6 +219,23 @@ func spanAttr(s sdktrace.ReadOnlySpan, key string) string {
 }
 
 // judgeSpan checks one ended span against the call it belongs to.
+// rootSpans returns the spans of one dispatch that have no parent among them:
+// the dispatch span itself; spans started under it (per turn, per fetch) are
+// the hook's own business.
+func rootSpans(group []sdktrace.ReadOnlySpan) []sdktrace.ReadOnlySpan {
+	ids := map[[8]byte]bool{}
+	for _, s := range group {
+		ids[s.SpanContext().SpanID()] = true
+	}
+	var out []sdktrace.ReadOnlySpan
+	for _, s := range group {
+		if !ids[s.Parent().SpanID()] {
+			out = append(out, s)
+		}
+	}
+	return out
+}
+
 func judgeSpan(out *lib.Outcome, c c43Case, rig *otelRig, s sdktrace.ReadOnlySpan, tr c43Trace, failed bool, method, where string) {
 	if n := func() int { rig.ec.mu.Lock(); defer rig.ec.mu.Unlock(); return rig.ec.ends[s.SpanContext().SpanID()] }(); n != 1 {
 		out.Violate(lib.Keyf("C43", "span-end-count", where), "%s: the hook called End %d times on the span of %s", where, n, method)
@@ -370,11 +387,12 @@ func runC43(c c43Case) (out lib.Outcome) {
 				continue
 			}
 			expectSpans++
-			if len(mine) != 1 {
-				out.Violate(lib.Keyf("C43", "span-count", where), "call #%d (%s %s, failed=%v) ended %d spans, expected 1", i, call.Kind, call.Method, failed, len(mine))
+			root := rootSpans(mine)
+			if len(root) != 1 {
+				out.Violate(lib.Keyf("C43", "span-count", where), "call #%d (%s %s, failed=%v) ended %d spans of which %d have no parent among them, expected one dispatch span", i, call.Kind, call.Method, failed, len(mine), len(root))
 				continue
 			}
-			judgeSpan(&out, c, rig, mine[0], pc.Trace, failed, call.Method, where)
+			judgeSpan(&out, c, rig, root[0], pc.Trace, failed, call.Method, where)
 		}
 		_ = expectSpans
 	} else {
@@ -404,11 +422,12 @@ func runC43(c c43Case) (out lib.Outcome) {
 					}
 					return
 				}
-				if len(fresh) != 1 {
-					out.Violate(lib.Keyf("C43", "span-count", where), "%s (failed=%v) ended %d spans, expected 1", st.Path, st.Failed, len(fresh))
+				root := rootSpans(fresh)
+				if len(root) != 1 {
+					out.Violate(lib.Keyf("C43", "span-count", where), "%s (failed=%v) ended %d spans of which %d have no parent among them, expected one dispatch span", st.Path, st.Failed, len(fresh), len(root))
 					return
 				}
-				judgeSpan(&out, c, rig, fresh[0], stepTrace, st.Failed, call.Method, where)
+				judgeSpan(&out, c, rig, root[0], stepTrace, st.Failed, call.Method, where)
 				if st.Phase == "cont" {
 					out.Label("continuation-span")
 				}
